@@ -25,6 +25,9 @@ type RecSpec struct {
 // Case: records are sent pipelined by the library's own Send, the stream is
 // then read back through a chunk-controlled reader.
 type Case struct {
+	// RecvFraming: the receiving end uses this framing instead (a header framing
+	// that expects a content type reading from a peer that sends none).
+	RecvFraming string    `json:"recv_framing,omitempty"`
 	Framing     string    `json:"framing"` // line, split1e, split00, splitsp, hdr, hdrbin, strict, stricttp, lsp, rawjson, direct
 	Records     []RecSpec `json:"records"`
 	Cuts        []int     `json:"cuts,omitempty"`
@@ -206,7 +209,11 @@ func run(_ *testing.T, c Case) engine.Verdict {
 
 	check := func(cuts []int, oneByte bool, maxRead int, eofWithData bool) engine.Verdict {
 		rd := &chunkReader{data: stream, cuts: cuts, oneByte: oneByte, maxRead: maxRead, eofWithData: eofWithData}
-		rcv := fr(rd, &bufWC{})
+		rfr := fr
+		if c.RecvFraming != "" {
+			rfr, _, _ = framingOf(c.RecvFraming)
+		}
+		rcv := rfr(rd, &bufWC{})
 		for i, exp := range want {
 			var got []byte
 			var err error
@@ -395,6 +402,10 @@ func genRecord(t *rapid.T, framing string, big bool) RecSpec {
 func genCase(big bool) func(t *rapid.T) Case {
 	return func(t *rapid.T) Case {
 		c := Case{Framing: rapid.SampledFrom(framingNames).Draw(t, "framing")}
+		if (c.Framing == "hdr" || c.Framing == "strict") && rapid.IntRange(0, 2).Draw(t, "asym") == 0 {
+			// the sender writes no Content-Type; Header(mime) and LSP accept that
+			c.RecvFraming = rapid.SampledFrom([]string{"hdrbin", "hdrcaps", "lsp"}).Draw(t, "rfr")
+		}
 		n := rapid.IntRange(0, 12).Draw(t, "nrec")
 		if big {
 			n = rapid.IntRange(1, 6).Draw(t, "nrec")
